@@ -248,6 +248,13 @@ func lastProgress(dir string) string {
 	return lines[len(lines)-1]
 }
 
+func firstKind(progressLine string) string {
+	if m := regexp.MustCompile(`kind=(\S+)`).FindStringSubmatch(progressLine); m != nil {
+		return m[1]
+	}
+	return ""
+}
+
 func lastN(l []string, n int) []string {
 	if len(l) > n {
 		return l[len(l)-n:]
@@ -280,6 +287,17 @@ func checkC08(c *Ctx) *orch.Outcome {
 		pj, _ := json.Marshal(p)
 		jobs = append(jobs, orch.Job{Kind: "c08.run", Name: fmt.Sprintf("c08-%d", seed), Seed: seed, Params: pj, Timeout: 1500})
 	}
+	// thorough: replay part of the hostile workload with the AddressSanitizer build (blobs of hostile size and
+	// content cross the cgo boundary into SQLite's C code)
+	nASan := 0
+	if c.Thorough() {
+		for i := 0; i < 6; i++ {
+			seed := c.Seed*10000 + 5000 + int64(i)
+			pj, _ := json.Marshal(c08Params{Seed: seed, Blocks: 160, Late: i%2 == 1})
+			jobs = append(jobs, orch.Job{Kind: "c08.run", Name: fmt.Sprintf("c08-asan-%d", seed), Seed: seed, Params: pj, Timeout: 2400, ASan: true})
+			nASan++
+		}
+	}
 	// tagged scenario: recorded findings
 	for i := 0; i < 2; i++ {
 		seed := c.Seed*10000 + 9000 + int64(i)
@@ -288,7 +306,17 @@ func checkC08(c *Ctx) *orch.Outcome {
 	}
 	rs := c.R.Run(jobs)
 	o.Merge(rs)
+	asanReports, asanBlocks := 0, int64(0)
 	for i, r := range rs {
+		if jobs[i].ASan {
+			asanReports += r.ASanReports
+			asanBlocks += r.Counters["blocks"]
+			if r.ASanReports > 0 {
+				o.Violations = append(o.Violations, orch.Violation{Property: "C08", Signature: "asan-report kind=" + firstKind(lastProgress(jobs[i].Dir)),
+					Detail: "AddressSanitizer reported a memory error while the daemon applied hostile entries:\n" + clipS(r.Stderr, 3000), Case: map[string]interface{}{"job": jobs[i].Name, "last_block": lastProgress(jobs[i].Dir)}})
+				continue
+			}
+		}
 		if r.Crashed {
 			sig, msg := crashSignature(r.Stderr)
 			if sig == "lab-crash" {
@@ -315,6 +343,11 @@ func checkC08(c *Ctx) *orch.Outcome {
 	o.Extra["hostile_entries"] = orch.SumCounter(rs, "hostile_entries")
 	o.Extra["kinds_applied"] = orch.UnionDistinct(rs, "kinds")
 	o.Extra["kind_era_combinations"] = len(orch.UnionDistinct(rs, "kind_era"))
+	if nASan > 0 {
+		o.Extra["asan_jobs"] = nASan
+		o.Extra["asan_blocks_synced"] = asanBlocks
+		o.Extra["asan_reports"] = asanReports
+	}
 	o.MinNontrivial = 20
 	return o
 }
